@@ -791,7 +791,7 @@ func successReturns(h *ssa.Function, kind succKind, idx int) []retPoint {
 		if !ok || idx >= len(ret.Results) {
 			continue
 		}
-		v := ret.Results[idx]
+		v := spilledResult(ret, idx)
 		if phi, ok := v.(*ssa.Phi); ok && phi.Block() == b {
 			for i, e := range phi.Edges {
 				if kind == errNil {
@@ -820,7 +820,7 @@ func (p *Prog) succRets(h *ssa.Function, kind succKind, idx int) []retPoint {
 	var res []retPoint
 	for _, rp := range successReturns(h, kind, idx) {
 		if kind == errNil && rp.pred == nil {
-			v := rp.ret.Results[idx]
+			v := rp.val
 			if _, isConst := v.(*ssa.Const); !isConst {
 				nonNil := func(l Lit) bool {
 					x, isNil, ok := nilTest(l)
@@ -909,7 +909,7 @@ func (p *Prog) lift(q Pred, depth int) Pred {
 			if !good {
 				// a return of a dynamic error that is tested non-nil on all paths is a failure return
 				if kind == errNil && rp.pred == nil {
-					v := rp.ret.Results[idx]
+					v := rp.val
 					nonNil := func(l Lit) bool {
 						x, isNil, ok := nilTest(l)
 						return ok && !isNil && x == v
@@ -1251,7 +1251,7 @@ func retPointsOf(ret *ssa.Return, idx int) []retPoint {
 	if idx >= len(ret.Results) {
 		return nil
 	}
-	v := ret.Results[idx]
+	v := spilledResult(ret, idx)
 	b := ret.Block()
 	if phi, ok := v.(*ssa.Phi); ok && phi.Block() == b {
 		var res []retPoint
@@ -1261,4 +1261,45 @@ func retPointsOf(ret *ssa.Return, idx int) []retPoint {
 		return res
 	}
 	return []retPoint{{ret, nil, v}}
+}
+
+// spilledResult: in a function with defers the results are spilled to locals (`*t0 = v; rundefers;
+// t1 = *t0; return t1`). When the local is written in the returning block itself and is not shared
+// with a closure, the value returned is the one stored last.
+func spilledResult(ret *ssa.Return, idx int) ssa.Value {
+	v := ret.Results[idx]
+	u, ok := v.(*ssa.UnOp)
+	if !ok || u.Op != token.MUL {
+		return v
+	}
+	al, ok := u.X.(*ssa.Alloc)
+	if !ok || al.Heap {
+		return v
+	}
+	if refs := al.Referrers(); refs != nil {
+		for _, r := range *refs {
+			switch x := r.(type) {
+			case *ssa.Store:
+				if x.Addr != ssa.Value(al) {
+					return v
+				}
+			case *ssa.UnOp:
+			default:
+				return v
+			}
+		}
+	}
+	var last ssa.Value
+	for _, in := range ret.Block().Instrs {
+		if st, isSt := in.(*ssa.Store); isSt && st.Addr == ssa.Value(al) {
+			last = st.Val
+		}
+		if in == ssa.Instruction(u) {
+			break
+		}
+	}
+	if last != nil {
+		return last
+	}
+	return v
 }
